@@ -374,7 +374,63 @@ def random_strategy(tier):
                      st.one_of(st.none(), st.lists(st.sampled_from([1, 2, 5, 4096]), min_size=1, max_size=3)), st.booleans())
 
 
+# ---- two users of one hash client ---------------------------------------------------------------------------------------
+
+def two_users_cases(tier, seed):
+    for kind in ("hash-pooled", "aws-pooled"):
+        for ra in (1, 2, 0):
+            for ci, call in enumerate(CALLS):
+                if tier == "quick" and ci % 3 and ra != 1:
+                    continue
+                for phase in ("retry", "failing", "dead"):
+                    for mask in ((0, 1, 2, 3, 5, 6) if tier == "quick" else range(16)):
+                        yield {"kind": kind, "retry_attempts": ra, "call": call, "phase": phase, "choices": [(mask >> b) & 1 for b in range(4)] + [1, 0, 1, 1, 0, 1, 0, 0, 1] * 3}
+
+
+def check_two_users(case):
+    """two users of one HashClient(use_pooling=True, ignore_exc=True) - threads, or tasks switching at socket calls - read at the
+    same time while the failover bookkeeping of their server is at work (a failure was recorded and the retry is due; or the
+    server is failing right now; or it has been given up): neither call raises, each returns the miss or the genuine hit"""
+    from vlib import interleave
+    kind, call, phase = case["kind"], case["call"], case["phase"]
+    D, C = object(), object()
+    base = {"kind": kind, "nservers": 1, "cfg": {"retry_attempts": case["retry_attempts"], "max_pool_size": 4}}
+    results = {}
+    for name, items in (("miss", False), ("hit", True)):
+        env, c = setup(base, items)
+        with virtual_time(env.clock):
+            fn = build_call(c, call, D, C)
+            if fn is None:
+                return False, ["not-applicable-signature"]
+            results[name] = env.call(fn)[1]
+    miss, hit = results["miss"], results["hit"]
+    env, c = setup(base, True)
+    desc = "%s(%s) %r by two users at once on %s (retry_attempts=%d), phase %r, hand-over pattern %r" % (
+        call["op"], call.get("key", call.get("keys")), call.get("kw", {}), kind, case["retry_attempts"], phase, case["choices"][:4])
+    with virtual_time(env.clock):
+        fn = build_call(c, call, D, C)
+        srv = env.servers[0]
+        if phase in ("retry", "dead"):
+            srv.down = "refused"
+            for _ in range(1 if phase == "retry" else case["retry_attempts"] + 2):
+                env.call(c.get, "t")                      # swallowed: recorded as a failure (then retried, then given up)
+                env.clock.advance(1.5)
+            srv.down = None
+            env.clock.advance(61 if phase == "dead" else 1.5)
+        elif phase == "failing":
+            srv.down = "reset-recv"
+        out, sc = interleave.run(env.net, [fn, fn], choices=case["choices"])
+        srv.down = None
+    for u, r in enumerate(out):
+        if r[0] != "ok":
+            raise Violation(["two-users", "raised", call["op"], type(r[1]).__name__], "user %d's call raised %r instead of returning a miss: %s" % (u, r[1], desc))
+        if not same_miss(r[1], miss) and not _equal_hit(r[1], hit):
+            raise Violation(["two-users", "shape", call["op"]], "user %d's call returned %s; a miss is %s, the hit %s: %s" % (u, _show(r[1], D, C), _show(miss, D, C), _show(hit, D, C), desc))
+    return sc.switches > 0, ["two-users", kind, phase]
+
+
 PARTS = [
+    Part("two-users-at-once", "enum", check_two_users, cases=two_users_cases, exhaustive=True),
     Part("failure-sweep", "enum", check, cases=sweep_cases, exhaustive=True),
     Part("random", "hyp", check, strategy=random_strategy,
          examples={"quick": 300, "thorough": 12000}, shards={"quick": 4, "thorough": 16}),
